@@ -32,7 +32,17 @@ type SpecEnv struct {
 	extTypes    []types.Type
 	ri          *Term // value of #i at the loop head
 	evalBlock   *ssa.BasicBlock
+	// role: whether the clause under evaluation is going to be assumed or asserted (0: unknown); neg: inside an odd number
+	// of negations; unk: under a connective without polarity (==). Only used to shape bounded existentials (see exists).
+	role int
+	neg  bool
+	unk  bool
 }
+
+const (
+	roleAssume = 1
+	roleAssert = -1
+)
 
 type SV struct {
 	T   Term
@@ -285,7 +295,13 @@ func (e *SpecEnv) eval(x ast.Expr) (SV, error) {
 			return SV{T(fmt.Sprint(int(s[0])), "Int"), types.Typ[types.UntypedRune]}, nil
 		}
 	case *ast.UnaryExpr:
+		if n.Op == token.NOT {
+			e.neg = !e.neg
+		}
 		v, err := e.eval(n.X)
+		if n.Op == token.NOT {
+			e.neg = !e.neg
+		}
 		if err != nil {
 			return SV{}, err
 		}
@@ -392,11 +408,17 @@ func (e *SpecEnv) binary(n *ast.BinaryExpr) (SV, error) {
 			}
 		}
 	}
+	savedUnk := e.unk
+	if n.Op == token.EQL || n.Op == token.NEQ {
+		e.unk = true // operands of == have no polarity
+	}
 	l, err := e.eval(n.X)
 	if err != nil {
+		e.unk = savedUnk
 		return SV{}, err
 	}
 	r, err := e.eval(n.Y)
+	e.unk = savedUnk
 	if err != nil {
 		return SV{}, err
 	}
@@ -596,8 +618,41 @@ func (e *SpecEnv) call(n *ast.CallExpr) (SV, error) {
 			v, err := e.eval(n.Args[0])
 			e.inOld = saved
 			return v, err
+		case "is":
+			// is(x, T): the interface value x holds a value of the (non-pointer) named type T of this package
+			if len(n.Args) != 2 {
+				return SV{}, fmt.Errorf("is(x, T)")
+			}
+			tid, ok := n.Args[1].(*ast.Ident)
+			if !ok {
+				return SV{}, fmt.Errorf("is(x, T): T must be a type name of the package")
+			}
+			var tt types.Type
+			for _, p := range []*ssa.Package{e.fn.Pkg, e.g.f.Pkg} {
+				if p != nil {
+					if obj := p.Pkg.Scope().Lookup(tid.Name); obj != nil {
+						if _, isT := obj.(*types.TypeName); isT {
+							tt = obj.Type()
+							break
+						}
+					}
+				}
+			}
+			if tt == nil {
+				return SV{}, fmt.Errorf("is(x, T): unknown type %s", tid.Name)
+			}
+			if _, isPtr := tt.Underlying().(*types.Pointer); isPtr {
+				return SV{}, fmt.Errorf("is(x, T): pointer payloads carry no type tag")
+			}
+			xv, err := e.eval(n.Args[0])
+			if err != nil {
+				return SV{}, err
+			}
+			return SV{T(fmt.Sprintf("(= (%s %s) %d)", w.itypeFn(), xv.T.S, typeID(tt)), "Bool"), tBoolT}, nil
 		case "implies":
+			e.neg = !e.neg
 			a, err := e.evalBool(n.Args[0])
+			e.neg = !e.neg
 			if err != nil {
 				return SV{}, err
 			}
@@ -680,6 +735,27 @@ func (e *SpecEnv) call(n *ast.CallExpr) (SV, error) {
 			rng := fmt.Sprintf("(and (<= %s %s) (< %s %s))", lo.T.S, bv, bv, hi.T.S)
 			if id.Name == "forall" {
 				return SV{T(fmt.Sprintf("(forall ((%s Int)) (=> %s %s))", bv, rng, body.S), "Bool"), tBoolT}, nil
+			}
+			// A bounded existential that will be skolemised (assumed positively / asserted negatively) names its witness with
+			// wit(j); one that will have to be instantiated (the other way round) additionally offers wit(j) as a trigger,
+			// so that the witnesses of the assumptions are tried. wit is true everywhere: the formulas are equivalent.
+			eff := e.role
+			if e.neg {
+				eff = -eff
+			}
+			if e.unk {
+				eff = 0
+			}
+			if !w.pureDecl["wit"] {
+				w.pureDecl["wit"] = true
+				w.decls = append(w.decls, "(declare-fun wit (Int) Bool)")
+				w.assumeGlobal("(forall ((j Int)) (! (wit j) :pattern ((wit j))))")
+			}
+			switch {
+			case eff > 0:
+				return SV{T(fmt.Sprintf("(exists ((%s Int)) (and (wit %s) %s %s))", bv, bv, rng, body.S), "Bool"), tBoolT}, nil
+			case eff < 0:
+				return SV{T(fmt.Sprintf("(or (exists ((%s Int)) (and %s %s)) (exists ((%s Int)) (! (and (wit %s) %s %s) :pattern ((wit %s)))))", bv, rng, body.S, bv, bv, rng, body.S, bv), "Bool"), tBoolT}, nil
 			}
 			return SV{T(fmt.Sprintf("(exists ((%s Int)) (and %s %s))", bv, rng, body.S), "Bool"), tBoolT}, nil
 		case "has":
